@@ -36,13 +36,13 @@ SMALL = ["tetrahedron", "octahedron", "box1", "prism3"]
 
 def run(tier, seed, t0):
     m = Merged(); wd = R.workdir("C12")
-    n = T(tier, 500, 50000)
-    na = T(tier, 120, 5000)
+    n = T(tier, 500, 150000)
+    na = T(tier, 120, 15000)
     R.run_inv(Inv("geometry", n, "plain", timeout=T(tier, 600, 14400)), seed, wd, m)
     R.run_inv(Inv("geometry", na, "asan", timeout=T(tier, 900, 14400), first=n), seed, wd, m)
     total_geometry = m.evaluations
     # measures reported after a history (refinement passes, node moves, force phases, compaction), against the own measures of the live mesh
-    nh = T(tier, 1500, 60000)
+    nh = T(tier, 1500, 180000)
     R.run_inv(Inv("geometry_hist", nh, "plain", timeout=T(tier, 900, 14400), tag="geometry_hist/plain"), seed, wd, m)
     R.run_inv(Inv("geometry_hist", T(tier, 100, 2000), "asan", timeout=T(tier, 900, 14400), first=nh, tag="geometry_hist/asan"), seed, wd, m)
     b = m.bins; total = total_geometry
